@@ -4,6 +4,8 @@ changes to a scratch copy of /repo and reports which checks alarm.  Not a regist
 import json, os, re, shutil, subprocess, sys, time
 VERIF = os.path.dirname(os.path.dirname(os.path.abspath(__file__)))
 
+ALLP = ['C%02d' % i for i in range(1, 21)]
+
 MUTANTS = [
  # name, file, old, new, expected alarms (subset must alarm), must-not-alarm
  ('hostname_guard_stricter', 'src/message/avp/types/host_name.rs', 'if reader.is_empty() {', 'if reader.len() < 2 {', ['C05', 'C03'], ['C01', 'C02', 'C06', 'C09']),
@@ -19,6 +21,17 @@ MUTANTS = [
  ('control_length_minus_one', 'src/message/control_message.rs', 'let payload_length = length as usize - FIXED_LENGTH;', 'let payload_length = length as usize - FIXED_LENGTH + 1;', ['C05'], ['C06']),
  ('version_check_inverted_field', 'src/message.rs', 'if version != Self::PROTOCOL_VERSION {', 'if version > Self::PROTOCOL_VERSION {', ['C14', 'C05'], ['C06']),
  ('println_in_decode', 'src/message/data_message.rs', 'let tunnel_id = unsafe { reader.read_u16_be_unchecked() };', 'let tunnel_id = unsafe { reader.read_u16_be_unchecked() };\n        eprintln!("tunnel {tunnel_id}");', ['C19'], []),
+
+ # ---- property-preserving changes: no check may alarm ---------------------------------------------------------------
+ ('H_guard_flipped_operands', 'src/message/avp/types/tie_breaker.rs', 'if reader.len() < Self::LENGTH {', 'if Self::LENGTH > reader.len() {', [], ALLP),
+ ('H_is_empty_as_len', 'src/message/avp/types/host_name.rs', 'if reader.is_empty() {', 'if reader.len() == 0 {', [], ALLP),
+ ('H_unspecified_error_variant', 'src/message/avp/types/proxy_authen_type.rs', '.map_err(|_| DecodeError::IncompleteAVP(Self::ATTRIBUTE_TYPE))', '.map_err(|_| DecodeError::AVPReadError(Self::ATTRIBUTE_TYPE))', [], ALLP),
+ ('H_control_hoist_const', 'src/message/control_message.rs', 'let payload_length = length as usize - FIXED_LENGTH;', 'let total = length as usize;\n        let payload_length = total - FIXED_LENGTH;', [], ALLP),
+ ('H_data_equivalent_check', 'src/message/data_message.rs', 'if (length as usize) < header_length || length as usize - header_length > reader.len() {', 'if (length as usize) < header_length || length as usize > reader.len() + header_length {', [], ALLP),
+ ('H_rename_loop_var_hide', 'src/message/avp.rs', 'for j in 0..chunk_size {\n                    input[j] ^= intermediate[j];\n                }', 'for k in 0..chunk_size {\n                    input[k] ^= intermediate[k];\n                }', [], ALLP),
+ ('H_new_unused_helper', 'src/message/avp/header.rs', 'impl Header {\n    pub const LENGTH: u16 = 6;', 'impl Header {\n    pub const LENGTH: u16 = 6;\n\n    #[allow(dead_code)]\n    pub fn total_length(&self) -> u16 {\n        self.payload_length + Self::LENGTH\n    }', [], ALLP),
+ ('H_avp_write_local_rename', 'src/message/avp.rs', 'let end_position = writer.len();\n        let length = end_position - start_position;\n\n        let is_hidden', 'let end = writer.len();\n        let length = end - start_position;\n\n        let is_hidden', [], ALLP),
+ ('H_greedy_comment_and_reorder', 'src/message/avp.rs', 'result.push(Err(DecodeError::UnsupportedVendorId(header.vendor_id)));\n                reader.skip_bytes(header.payload_length as usize);', 'reader.skip_bytes(header.payload_length as usize);\n                result.push(Err(DecodeError::UnsupportedVendorId(header.vendor_id)));', [], ALLP),
 ]
 
 def main():
@@ -29,7 +42,13 @@ def main():
         if only and name not in only:
             continue
         os.makedirs(scratch, exist_ok=True)
-        subprocess.check_call(['rsync', '-a', '--delete', '--exclude', 'target', '--exclude', '.git', '--exclude', '.vf_replay', '/repo/', scratch + '/'])
+        # committed state of /repo (never the working tree, which a seeded-change run may have patched)
+        clean = scratch + '_clean'
+        shutil.rmtree(clean, ignore_errors=True)
+        os.makedirs(clean)
+        subprocess.check_call('git -C /repo archive HEAD | tar -x -C %s' % clean, shell=True)
+        subprocess.check_call(['rsync', '-a', '--delete', '--exclude', 'target', '--exclude', '.vf_replay', clean + '/', scratch + '/'])
+        shutil.rmtree(clean, ignore_errors=True)
         p = os.path.join(scratch, f)
         s = open(p).read()
         if old not in s:
